@@ -267,6 +267,43 @@ func s5(consumers int) func(x *vrt.Exec) {
 	}
 }
 
+// S6: a replaced stream that still has a player; then its own publisher disconnects
+// (Unregist of the retired stream): the player must be released, the successor untouched.
+func s6() func(x *vrt.Exec) {
+	return func(x *vrt.Exec) {
+		reset()
+		scheduler.VerifReset()
+		old := media.VerifNewBareStream("/s6")
+		media.Regist(old)
+		c := &recCons{}
+		old.StartConsume(c, media.RTPPacket, "c")
+		nw := media.VerifNewBareStream("/s6")
+		nc := &recCons{}
+		vrt.GoNamed("new-publisher", func() {
+			media.Regist(nw)
+			nw.StartConsume(nc, media.RTPPacket, "nc")
+		})
+		vrt.GoNamed("old-publisher-leaves", func() { media.Unregist(old) })
+		vrt.WhenIdle()
+		x.Observe("old.status=%d c.closed=%d nc.closed=%d get=%v", old.VerifStatus(), c.closed, nc.closed, media.Get("/s6") == nw)
+		if old.VerifStatus() == media.StreamOK {
+			x.Failf("S6 retired-stream-still-open", "the replaced stream's publisher left (Unregist) but the stream is still open")
+		}
+		if c.closed < 1 {
+			x.Failf("S6 consumer-not-closed", "player of the retired stream not closed after its publisher left")
+		}
+		if n := old.ConsumerCount(); n != 0 {
+			x.Failf("S6 count-nonzero", "ConsumerCount=%d", n)
+		}
+		if media.Get("/s6") != nw || nc.closed != 0 {
+			x.Failf("S6 successor-disturbed", "successor unregistered or its player closed")
+		}
+		nw.Close()
+		vrt.WhenIdle()
+		stuck(x, "S6")
+	}
+}
+
 const sdpH264AAC = "v=0\r\no=- 0 0 IN IP4 127.0.0.1\r\ns=No Name\r\nc=IN IP4 127.0.0.1\r\nt=0 0\r\nm=video 0 RTP/AVP 96\r\na=rtpmap:96 H264/90000\r\n" +
 	"a=fmtp:96 packetization-mode=1; sprop-parameter-sets=Z2QAH6zZQFAFuhAAAAMAEAAAAwPI8YMZYA==,aO+8sA==; profile-level-id=64001F\r\na=control:streamid=0\r\n" +
 	"m=audio 0 RTP/AVP 97\r\na=rtpmap:97 MPEG4-GENERIC/44100/2\r\na=fmtp:97 profile-level-id=1;mode=AAC-hbr;sizelength=13;indexlength=3;indexdeltalength=3; config=121056E500\r\na=control:streamid=1\r\n"
@@ -292,6 +329,7 @@ func scenarios(thorough bool) []runner.Scenario {
 		runner.Scenario{Name: "S4-converters-k2", Body: s4(2), P: p, Shards: sh},
 		runner.Scenario{Name: "S5-replace-0", Body: s5(0), P: p},
 		runner.Scenario{Name: "S5-replace-1", Body: s5(1), P: p, Shards: sh},
+		runner.Scenario{Name: "S6-retired-publisher-leaves", Body: s6(), P: p, Shards: sh},
 	)
 	return out
 }
